@@ -241,6 +241,9 @@ func ruleB4(p *Prog) *RuleResult {
 	} {
 		f := p.Func(w.wrapper)
 		if f == nil {
+			if p.Func(w.decoder) == nil && p.Cfg.Name != cfgAmd64.Name {
+				continue // this build configuration does not contain the format at all (portable build has no frozen view)
+			}
 			res.undecided(w.wrapper, "-", "anchor not found")
 			continue
 		}
